@@ -3,4 +3,5 @@ CONSTANTS
   MaxOps = 3
 INVARIANT NeverSelfBlocked
 INVARIANT ShapeConsistent
+INVARIANT SedNeverSelfBlocked
 CHECK_DEADLOCK FALSE
